@@ -167,7 +167,41 @@ def py_calls(name, node, args, kwargs, st, ex, recv):
     return NotImplemented
 
 
+# ------------------------------------------------------------------ model of the constant types (python and numpy scalars)
+_NUM = ["numbers.Real", "numbers.Complex", "numbers.Number", "object"]
+_INT = ["numbers.Integral", "numbers.Rational"] + _NUM
+_NPF = ["numpy.floating", "numpy.inexact", "numpy.number", "numpy.generic"]
+_NPI = ["numpy.signedinteger", "numpy.integer", "numpy.number", "numpy.generic"]
+TYPE_MRO = {        # the classes isinstance() accepts for a value of the type (its MRO plus the numbers ABCs it is registered with)
+    "float": ["float"] + _NUM,
+    "int": ["int"] + _INT,
+    "bool": ["bool", "int"] + _INT,
+    "str": ["str", "object"],
+    "numpy.float64": ["numpy.float64", "numpy.double", "numpy.float_"] + _NPF + ["float"] + _NUM,
+    "numpy.float32": ["numpy.float32", "numpy.single"] + _NPF + _NUM,
+    "numpy.int64": ["numpy.int64", "numpy.int_", "numpy.intp", "numpy.longlong"] + _NPI + _INT,
+    "numpy.int32": ["numpy.int32", "numpy.intc"] + _NPI + _INT,
+}
+NUMPY_SCALARS = {"numpy.float64": "float", "numpy.float32": "float", "numpy.int64": "int", "numpy.int32": "int"}   # -> the python type of the same values
+
+
+class _PF(float):
+    """a float constant whose type is `tname` (python float or a numpy floating scalar)."""
+
+
+class _PI(int):
+    """an int constant whose type is `tname`."""
+
+
+def probe(tname):
+    v = _PI(3) if TYPE_MRO[tname][-len(_INT):] == _INT else _PF(2.5)
+    v.tname = tname
+    return v
+
+
 def _type_tag(v):
+    if getattr(v, "tname", None):
+        return v.tname
     if isinstance(v, bool):
         return "bool"
     if isinstance(v, int):
@@ -179,27 +213,144 @@ def _type_tag(v):
     return "<expression node>"
 
 
-def native_env(repo):
-    """the module's sets of native types as lists of type names ({float, int} -> ['float', 'int'])."""
-    env = {}
-    for nm in ("native_numeric_types", "native_boolean_types"):
-        try:
-            v = repo.module_assign(EXPR, nm)
-        except AnchorError:
+def _is_type_name(t):
+    return t in ("float", "int", "bool", "str", "complex", "object") or t.startswith("numpy.") or t.startswith("numbers.")
+
+
+def module_aliases(tree):
+    """local name -> canonical dotted name, for the imports found anywhere at module level (also inside try / if)."""
+    al = {}
+    for n in ast.walk(tree):
+        if isinstance(n, (ast.FunctionDef, ast.ClassDef)):
             continue
-        if isinstance(v, (ast.Set, ast.Tuple, ast.List)) and all(isinstance(e, ast.Name) for e in v.elts):
-            env[nm] = [e.id for e in v.elts]
-    return env
+        if isinstance(n, ast.Import):
+            for a in n.names:
+                al[a.asname or a.name.split(".")[0]] = a.name if a.asname else a.name.split(".")[0]
+        elif isinstance(n, ast.ImportFrom) and n.module and not n.level:
+            for a in n.names:
+                al[a.asname or a.name] = n.module + "." + a.name
+    return al
 
 
-def native_hook(inner=None):
-    """call hook deciding type(x) / isinstance(x, T) for python numbers (and expression nodes: never a native type)."""
+def canonical(text, aliases):
+    head, _, rest = text.partition(".")
+    if head in aliases:
+        return aliases[head] + ("." + rest if rest else "")
+    return text
+
+
+def type_sets(repo):
+    """module-level names of expr.py bound to collections of types -> ({name: [canonical type names]}, import aliases).
+
+    The binding is followed through the module body in order (also inside try / if / with): literal set / tuple / list / frozenset(...) / set(...),
+    unions (|, +, .union()), |= and += , .update(...) and .add(...)."""
+    if getattr(repo, "_c15_type_sets", None) is not None:
+        return repo._c15_type_sets
+    tree = repo.tree(EXPR)
+    al = module_aliases(tree)
+    sets = {}
+
+    class No(Exception):
+        pass
+
+    def ev(e):
+        if isinstance(e, (ast.Set, ast.Tuple, ast.List)):
+            out = []
+            for x in e.elts:
+                if isinstance(x, ast.Starred):
+                    out += ev(x.value)
+                    continue
+                d = dotted(x)
+                if d is None:
+                    raise No()
+                out.append(canonical(d, al))
+            if not all(_is_type_name(t) for t in out):
+                raise No()
+            return out
+        if isinstance(e, ast.Name) and e.id in sets:
+            return list(sets[e.id])
+        if isinstance(e, ast.BinOp) and isinstance(e.op, (ast.BitOr, ast.Add)):
+            return ev(e.left) + ev(e.right)
+        if isinstance(e, ast.Call) and isinstance(e.func, ast.Name) and e.func.id in ("set", "frozenset", "tuple", "list") and len(e.args) <= 1 and not e.keywords:
+            return ev(e.args[0]) if e.args else []
+        if isinstance(e, ast.Call) and isinstance(e.func, ast.Attribute) and e.func.attr == "union" and not e.keywords:
+            out = ev(e.func.value)
+            for a in e.args:
+                out = out + ev(a)
+            return out
+        raise No()
+
+    def visit(body):
+        for n in body:
+            try:
+                if isinstance(n, ast.Assign) and all(isinstance(t, ast.Name) for t in n.targets):
+                    try:
+                        v = ev(n.value)
+                    except No:
+                        for t in n.targets:
+                            sets.pop(t.id, None)
+                        continue
+                    for t in n.targets:
+                        sets[t.id] = v
+                elif isinstance(n, ast.AugAssign) and isinstance(n.target, ast.Name) and n.target.id in sets and isinstance(n.op, (ast.BitOr, ast.Add)):
+                    sets[n.target.id] = sets[n.target.id] + ev(n.value)
+                elif isinstance(n, ast.Expr) and isinstance(n.value, ast.Call) and isinstance(n.value.func, ast.Attribute) \
+                        and isinstance(n.value.func.value, ast.Name) and n.value.func.value.id in sets and n.value.func.attr in ("update", "add"):
+                    c = n.value
+                    for a in c.args:
+                        sets[c.func.value.id] = sets[c.func.value.id] + (ev(a) if c.func.attr == "update" else ev(ast.Tuple(elts=[a], ctx=ast.Load())))
+            except No:
+                raise ExtractError("%s line %d: cannot follow the update of a set of types: %s" % (EXPR, n.lineno, unparse(n)))
+            if isinstance(n, ast.Try):
+                visit(n.body)
+                visit(n.orelse)
+                visit(n.finalbody)
+            elif isinstance(n, (ast.If, ast.With)):
+                visit(n.body)
+    visit(tree.body)
+    repo._c15_type_sets = (sets, al)
+    return sets, al
+
+
+def native_env(repo):
+    """the module's sets of native types as lists of canonical type names ({float, int} -> ['float', 'int'])."""
+    return dict(type_sets(repo)[0])
+
+
+def type_name_hooks(aliases, attr_inner=None):
+    """(name_hook, attr_hook): `float`, `int`, `_np.float64`, `numbers.Real` ... evaluate to their canonical type name (a string), so that literal
+    type collections such as `(float, int)` are decided like the named module-level sets."""
+    def name_hook(nm, st):
+        if nm in ("float", "int", "bool", "str", "complex", "object"):
+            return nm
+        if aliases.get(nm, nm) in ("numpy", "numbers"):
+            return Opaque(aliases.get(nm, nm))
+        if _is_type_name(aliases.get(nm, "")):
+            return aliases[nm]            # from numpy import float64
+        return NotImplemented
+
+    def attr_hook(base, attr, st):
+        if isinstance(base, Opaque) and base.text in ("numpy", "numbers"):
+            return base.text + "." + attr
+        if attr_inner is not None:
+            return attr_inner(base, attr, st)
+        return NotImplemented
+    return name_hook, attr_hook
+
+
+def native_hook(inner=None, aliases=None):
+    """call hook deciding type(x) / isinstance(x, T) for constants (python numbers, numpy scalar probes) and expression nodes (never a native type)."""
+    aliases = aliases or {}
+
     def hook(name, node, args, kwargs, st, ex, recv):
         if name == "type" and len(args) == 1:
             return _type_tag(args[0])
-        if name == "isinstance" and len(args) == 2 and isinstance(args[1], (list, tuple)) and all(isinstance(t, str) for t in args[1]):
-            tag = _type_tag(args[0])
-            return tag in args[1] or (tag == "bool" and "int" in args[1])
+        if name == "isinstance" and len(args) == 2:
+            ts = list(args[1]) if isinstance(args[1], (list, tuple)) else [args[1]]
+            names = [canonical(t.text, aliases) if isinstance(t, Opaque) else t for t in ts]
+            if names and all(isinstance(t, str) and _is_type_name(t) for t in names):
+                tag = _type_tag(args[0])
+                return any(t in TYPE_MRO.get(tag, [tag]) for t in names)
         if inner is not None:
             return inner(name, node, args, kwargs, st, ex, recv)
         return NotImplemented
@@ -208,9 +359,11 @@ def native_hook(inner=None):
 
 def eval_native(repo, fn, env, hook=None):
     """value returned by a small function for concrete python inputs (single path; 'raise' if that path raises)."""
-    e = dict(native_env(repo))
+    tsets, aliases = type_sets(repo)
+    e = dict(tsets)
     e.update(env)
-    ex = SymExec(call_hook=native_hook(hook))
+    nh, ah = type_name_hooks(aliases)
+    ex = SymExec(call_hook=native_hook(hook, aliases), attr_hook=ah, name_hook=nh)
     outs = ex.run(fn, e)
     if len(outs) != 1:
         raise ExtractError("%s: %d paths for the concrete inputs %s" % (fn.name, len(outs), env))
@@ -596,6 +749,14 @@ def run(repo, chk):
     # (a Float or a native number): a Param or Var read at build time freezes a value that "changing values" later must affect.
     fold_rules(repo, chk)
 
+    # ---------------------------------------------------------------- R-C15-10 direct evaluation reads the live value
+    live_value_rules(repo, chk)
+
+    # ---------------------------------------------------------------- R-C15-11 numpy scalar constants build like python numbers
+    constant_type_rules(repo, chk)
+    chk.note("known, unrepaired (outside the simulator's models): the Jacobian of if_else does not mask the inactive branch - IfElseOperator.diff_down "
+             "propagates if_else(cond, der, 0) into the branch not taken, so an undefined partial there (nan / inf) gives 0*nan = nan in the compiled Jacobian; noted, not a rule")
+
     # ---------------------------------------------------------------- R-C15-8 expression DAG discipline
     # (a) wherever the operators of another expression are merged into an operator list, operators already present are skipped (a shared
     #     sub-expression is listed once: reverse differentiation visits every listed operator once);
@@ -624,6 +785,191 @@ def run(repo, chk):
                "a path returns before `self._c_obj.value = val`: after a solve (which loads values into the compiled object only) assigning a value equal to the stale Python-side "
                "cache is dropped and residuals / Jacobian stay at the solver's point", expected="no exit that bypasses the write-through", found=g.path_text(w) if w else None)
 
+
+
+# ------------------------------------------------------------------ R-C15-10
+def _class_property(repo, cname, name):
+    """the getter of property `name` visible on class cname (single inheritance, most derived first)."""
+    classes = repo.classes(EXPR)
+    cur, seen = cname, set()
+    while cur in classes and cur not in seen:
+        seen.add(cur)
+        for n in classes[cur].body:
+            if isinstance(n, ast.FunctionDef) and n.name == name and any(dotted(d) == "property" for d in n.decorator_list):
+                n._rel, n._qual = EXPR, "%s.%s" % (cur, name)
+                return n
+        nxt = None
+        for b in classes[cur].bases:
+            for a in ([b] if isinstance(b, ast.Name) else (b.args if isinstance(b, ast.Call) else [])):
+                if isinstance(a, ast.Name) and a.id in classes:
+                    nxt = a.id
+        cur = nxt
+    return None
+
+
+def _run_on_mock(repo, cname, fn, mock, depth=0):
+    """values a zero-argument method / property getter of class cname can return for the mock instance `mock` (a dict of attributes);
+    other methods and properties of the class reached through self are evaluated the same way."""
+    if depth > 6:
+        raise ExtractError("%s: recursion while evaluating on a mock leaf" % cname)
+    me = fn.args.args[0].arg
+    ms = _class_methods(repo, cname)
+
+    def attr_hook(base, attr, st):
+        if base is st.env.get(me) and isinstance(base, dict) and attr not in base:
+            g = _class_property(repo, cname, attr)
+            if g is not None:
+                vals = _run_on_mock(repo, cname, g, base, depth + 1)
+                if len(vals) != 1:
+                    raise ExtractError("%s.%s: %d values on a mock leaf" % (cname, attr, len(vals)))
+                return vals[0]
+        return NotImplemented
+
+    def call_hook(name, node, args, kwargs, st, ex, recv):
+        if isinstance(node.func, ast.Attribute) and isinstance(node.func.value, ast.Name) and node.func.value.id == me and not args and not kwargs \
+                and node.func.attr in ms and len(ms[node.func.attr][1].args.args) == 1:
+            vals = _run_on_mock(repo, cname, ms[node.func.attr][1], st.env[me], depth + 1)
+            if len(vals) != 1:
+                raise ExtractError("%s.%s(): %d values on a mock leaf" % (cname, node.func.attr, len(vals)))
+            return vals[0]
+        return NotImplemented
+    ex = SymExec(call_hook=call_hook, attr_hook=attr_hook)
+    outs = [o for o in ex.run(fn, {me: mock}) if o.raised is None]
+    vals = []
+    for o in outs:
+        if not any(ex.same(o.ret, v) for v in vals):
+            vals.append(o.ret)
+    return vals
+
+
+def live_value_rules(repo, chk):
+    """direct evaluation of a bare leaf reads the live value: Leaf.evaluate() returns what the `value` property returns, not registered (cache) and
+    registered (the compiled object's value; the solver writes only there)."""
+    cache, live = sp.Symbol("python_side_cache"), sp.Symbol("compiled_object_value")
+    states = (("not registered (_c_obj is None)", {"_value": cache, "_c_obj": None}, cache),
+              ("registered (_c_obj set)", {"_value": cache, "_c_obj": {"value": live}}, live))
+    n = 0
+    for cname in ("Float", "Param", "Var"):
+        ms = _class_methods(repo, cname)
+        getter = _class_property(repo, cname, "value")
+        if "evaluate" not in ms or getter is None:
+            raise AnchorError("%s.evaluate / value property vanished" % cname)
+        owner, fn = ms["evaluate"]
+        fn._rel, fn._qual = EXPR, "%s.evaluate" % owner
+        chk.fn(fn, getter)
+        for label, mock, want in states:
+            gv = _run_on_mock(repo, cname, getter, dict(mock))
+            evv = _run_on_mock(repo, cname, fn, dict(mock))
+            n += 1
+            chk.expect(len(gv) == 1 and gv[0] == want, "R-C15-10", "%s.value reads %s when %s" % (cname, "the compiled object" if want is live else "the Python-side value", label),
+                       loc(getter), expected=str(want), found=[str(x) for x in gv])
+            chk.expect(len(evv) == 1 and len(gv) == 1 and evv[0] == gv[0], "R-C15-10", "%s.evaluate() returns what the value property returns when %s" % (cname, label), loc(fn),
+                       "direct evaluation of a constraint that is a bare Var / Param reads the Python-side cache, which the solver does not update: it disagrees with "
+                       "the compiled residual after a solve / load_var_values_from_x", expected=[str(x) for x in gv], found=[str(x) for x in evv])
+    chk.floor("R-C15-10", 12)
+
+
+# ------------------------------------------------------------------ R-C15-11
+_ATTR_ERR = "<AttributeError: node method called on a native number>"
+
+
+class _AssertExec(SymExec):
+    """an assertion whose test is decided False ends the path (AssertionError)."""
+
+    def stmt(self, s, st):
+        if isinstance(s, ast.Assert) and self.decide(s.test, st) is False:
+            st.raised = "AssertionError: " + unparse(s.test)
+            st.done = True
+            return [st]
+        return SymExec.stmt(self, s, st)
+
+
+def constant_outcome(fn, probes, tsets, aliases, is_method):
+    """signature of what <fn> does when the parameters in `probes` ({param: constant}) are constants of a given type: per path
+    (raised exception | returned value, conditions, whether the path asks a node method / attribute of the constant -> AttributeError)."""
+    env = dict(tsets)
+    args = fn.args.args
+    defaults = dict(zip([a.arg for a in args[len(args) - len(fn.args.defaults):]], fn.args.defaults))
+    for i, a in enumerate(args):
+        if i == 0 and is_method:
+            env[a.arg] = Opaque("self")
+        elif a.arg in defaults and isinstance(defaults[a.arg], ast.Constant):
+            env[a.arg] = defaults[a.arg].value
+        else:
+            env[a.arg] = Opaque(a.arg)
+    env.update(probes)
+    isprobe = lambda v: getattr(v, "tname", None) is not None
+
+    def hook(name, node, args_, kwargs, st, ex, recv):
+        if isinstance(node.func, ast.Attribute) and recv is not None and isprobe(recv):
+            if node.func.attr in PREDS:
+                return Opaque(_ATTR_ERR)         # only an error if the value is needed (and / or may short-circuit)
+            st.conds.append((_ATTR_ERR, True))
+            return Opaque(_ATTR_ERR)
+        return NotImplemented
+
+    def attr_hook(base, attr, st):
+        if isprobe(base):
+            st.conds.append((_ATTR_ERR, True))
+            return Opaque(_ATTR_ERR)
+        return NotImplemented
+    nh, ah = type_name_hooks(aliases, attr_hook)
+    ex = _AssertExec(call_hook=native_hook(hook, aliases), attr_hook=ah, name_hook=nh)
+    sig = []
+    for o in ex.run(fn, env):
+        err = any(_ATTR_ERR in t for t, _ in o.conds)
+        sig.append(("AttributeError" if err else (o.raised if o.raised is not None else "returns " + ex.text(o.ret)),
+                    tuple(c for c in o.conds if _ATTR_ERR not in c[0])))
+    return sorted(sig, key=str)
+
+
+def constant_type_rules(repo, chk):
+    """a numpy scalar constant (what numpy's own operator dispatch hands to the right-hand operand's forward operator) is treated exactly like the
+    python number of the same value by every entry point of expression building that accepts python constants."""
+    tsets, aliases = type_sets(repo)
+    classes = repo.classes(EXPR)
+    entries = []      # (label, fn, is_method)
+    for n in repo.tree(EXPR).body:
+        if isinstance(n, ast.FunctionDef):
+            n._rel, n._qual = EXPR, n.name
+            entries.append((n.name, n, False))
+    fwd = ("__add__", "__sub__", "__mul__", "__truediv__", "__div__", "__pow__")
+    for cname, c in sorted(classes.items()):
+        for nm in fwd + ("_binary_operation_helper",):
+            f = method_of(repo, c, nm)
+            if f is not None and not any(dotted(d) == "abc.abstractmethod" for d in f.decorator_list):
+                entries.append(("%s.%s" % (cname, nm), f, True))
+    accepted = set()
+    for label, fn, is_method in entries:
+        params = [a.arg for a in fn.args.args][1 if is_method else 0:]
+        combos = [(p,) for p in params]
+        if len(params) >= 3:
+            combos.append(tuple(params[1:]))
+        for combo in combos:
+            base = {}
+            try:
+                for py in ("float", "int"):
+                    base[py] = constant_outcome(fn, {p: probe(py) for p in combo}, tsets, aliases, is_method)
+            except ExtractError:
+                continue          # not evaluable even for python numbers: not an entry point for constants
+            if any(x[0] == "AttributeError" or x[0].startswith("AssertionError") for sig in base.values() for x in sig):
+                continue          # the parameter does not take python constants (a class, a dict ...)
+            accepted.add(label)
+            chk.fn(fn)
+            bad = {}
+            for np_t, py in sorted(NUMPY_SCALARS.items()):
+                got = constant_outcome(fn, {p: probe(np_t) for p in combo}, tsets, aliases, is_method)
+                if got != base[py]:
+                    bad[np_t] = [x[0] for x in got]
+            chk.expect(not bad, "R-C15-11", "%s(%s) treats numpy scalar constants like python numbers" % (label, ", ".join(combo)), loc(fn),
+                       "numpy hands np.float64 / float32 / int64 / int32 scalars to the forward operator of the right-hand operand: a constant test that admits only the exact "
+                       "python types sends them down the expression-node path (AttributeError), although the same number as a python float builds",
+                       expected={k: [x[0] for x in base[v]] for k, v in NUMPY_SCALARS.items() if k in bad}, found=bad)
+    need = {"inequality", "if_else", "abs", "sign", "value", "Leaf._binary_operation_helper", "Float._binary_operation_helper", "expression._binary_operation_helper",
+            "ExpressionBase.__add__", "ExpressionBase.__mul__"}
+    if not need <= accepted:
+        raise ExtractError("R-C15-11: entry points that no longer accept python constants (anchors moved?): %s" % sorted(need - accepted))
+    chk.floor("R-C15-11", 25)
 
 
 # ------------------------------------------------------------------ R-C15-7
@@ -668,7 +1014,6 @@ def _pred_table(repo):
     return tab
 
 
-_ATTR_ERR = "<AttributeError: node method called on a native number>"
 
 
 def _fold_outcome(repo, fn, kind, tab):
@@ -721,7 +1066,9 @@ def _fold_outcome(repo, fn, kind, tab):
             return Opaque(_ATTR_ERR)
         return NotImplemented
 
-    ex = SymExec(call_hook=native_hook(hook), attr_hook=attr_hook)
+    aliases = type_sets(repo)[1]
+    nh, ah = type_name_hooks(aliases, attr_hook)
+    ex = SymExec(call_hook=native_hook(hook, aliases), attr_hook=ah, name_hook=nh)
     outs = [o for o in ex.run(fn, env) if o.raised is None and not any(_ATTR_ERR in t for t, _ in o.conds)]
     if not outs:
         return False               # would raise at build time: no silent folding
@@ -853,4 +1200,20 @@ WITNESSES = [
     dict(name='inequality-diff-down-return-none-preserving', file=EXPR, old='        val_dict[self] = inequality(body_val, self._lb.value, self._ub.value)\n\n    def diff_down(self, val_dict, der_dict):\n        pass', new='        val_dict[self] = inequality(body_val, self._lb.value, self._ub.value)\n\n    def diff_down(self, val_dict, der_dict):\n        return None', silent=True),
     dict(name='refcount-created-at-zero', file=AML, old='            self._refcounts[var] = 1\n', new='            self._refcounts[var] = 0\n', rule='R-C15-4'),
     dict(name='refcount-early-return-preserving', file=AML, old='            self._refcounts[f] = 1\n        else:\n            self._refcounts[f] += 1\n            cfloat = self._float_cfloat_map[f]\n        return cfloat', new='            n = 1\n            self._refcounts[f] = n\n            return cfloat\n        cfloat = self._float_cfloat_map[f]\n        self._refcounts[f] = self._refcounts[f] + 1\n        return cfloat', silent=True),
+    # --- R-C15-10 / R-C15-11: repaired defects (reverting the repair must fire; an equivalent correct spelling must stay quiet)
+    dict(name="leaf-evaluate-reads-cache", file=EXPR, old="    def evaluate(self):\n        return self.value\n", new="    def evaluate(self):\n        return self._value\n", rule="R-C15-10"),
+    dict(name="leaf-evaluate-spelled-out-preserving", file=EXPR, old="    def evaluate(self):\n        return self.value\n",
+         new="    def evaluate(self):\n        cobj = self._c_obj\n        if cobj is None:\n            return self._value\n        live = cobj.value\n        return live\n", silent=True),
+    dict(name="leaf-value-getter-ignores-compiled-object", file=EXPR, old="        if self._c_obj is not None:\n            return self._c_obj.value\n        return self._value\n",
+         new="        return self._value\n", rule="R-C15-10"),
+    dict(name="numpy-scalars-not-constants", file=EXPR, old="    native_numeric_types |= {_np.float64, _np.float32, _np.int64, _np.int32}\n", new="    pass\n", rule="R-C15-11"),
+    dict(name="numpy-scalars-only-float64", file=EXPR, old="    native_numeric_types |= {_np.float64, _np.float32, _np.int64, _np.int32}\n", new="    native_numeric_types.add(_np.float64)\n", rule="R-C15-11"),
+    dict(name="numpy-scalars-union-spelling-preserving", file=EXPR, old="    native_numeric_types |= {_np.float64, _np.float32, _np.int64, _np.int32}\n",
+         new="    _np_scalars = (_np.float64, _np.float32, _np.float16)\n    native_numeric_types = native_numeric_types.union(_np_scalars, [_np.int64, _np.int32])\n", silent=True),
+    dict(name="value-isinstance-real-preserving", file=EXPR, old="def value(obj):\n    if type(obj) in native_numeric_types:\n",
+         new="def value(obj):\n    if isinstance(obj, numbers.Real) and not isinstance(obj, bool):\n", silent=True),
+    dict(name="value-isinstance-python-types-only", file=EXPR, old="def value(obj):\n    if type(obj) in native_numeric_types:\n",
+         new="def value(obj):\n    if isinstance(obj, (float, int)):\n", rule="R-C15-11"),
+    dict(name="leaf-helper-exact-python-types", file=EXPR, old="    def _binary_operation_helper(self, other, cls):\n        if type(other) in native_numeric_types:\n            other = Float(other)\n        new_operator = cls(self, other.last_node())",
+         new="    def _binary_operation_helper(self, other, cls):\n        if type(other) in (float, int):\n            other = Float(other)\n        new_operator = cls(self, other.last_node())", rule="R-C15-11"),
 ]
